@@ -38,7 +38,7 @@ COMPONENTS = {
     "real": ["pulser sampling + Observable.__call__", "PulserData/_get_target_times", "SVBackendImpl._run/step/_apply_observables", "MPSBackendImpl.progress/timestep_complete/fill_results (+ Noisy/DMRG)", "MPSBackend.resume", "all numerics"],
     "stubbed": ["clock", "uuid", "RNG seeding", "minimize_bandwidth (scheduler-chosen permutation)", "process death for the resumed variant"],
 }
-PROBES = ["time_zero_requested", "off_grid_time", "near_grid_time", "duration_not_multiple_of_dt", "own_and_default_times_mixed", "clock_revealing_run", "resumed_run", "noisy_run_with_jump_search", "modulated_run", "dt_above_duration", "linspace_times"]
+PROBES = ["time_zero_requested", "off_grid_time", "near_grid_time", "duration_not_multiple_of_dt", "own_and_default_times_mixed", "clock_revealing_run", "resumed_run", "noisy_run_with_jump_search", "modulated_run", "dt_above_duration", "linspace_times", "observable_instances_reused_in_a_second_run"]
 ASSUMPTIONS = [
     "requested times closer than 1e-9 (relative) to each other count as one due time",
     "emu-sv has no autosave and no jump search: for it the check is the history oracle over seeded configurations, no fault is injected",
@@ -111,6 +111,24 @@ def run_one(tape: Tape, tier: str, opts: dict) -> dict:
                         for v in _judge(case, rs.results, clock, desc, "C14"):
                             v["clause"] += "-after-resume"
                             V.append(v)
+        # ---- a multi-step history in one process: the same observable instances in a second config that differs only
+        # in default_evaluation_times (config.with_changes-style reuse); the second run must follow ITS times
+        if out.error is None and any(o["times"] is None for o in cfg["observables"]) and tape.bool(0.25, "reuse_observables"):
+            holder: dict = {}
+            dflt_b = S.gen_eval_times(tape, T, dt, "default_b")
+            case_a = {**case, "cfg": {**cfg, "_obs_holder": holder}}
+            case_b = {**case, "cfg": {**cfg, "default_times": dflt_b, "_obs_holder": holder}}
+            out_a, _ = K.run_case(world, case_a, seeds)
+            out_b, _ = K.run_case(world, case_b, seeds)
+            evals += 2
+            probes["observable_instances_reused_in_a_second_run"] = 1
+            desc_b = {**desc, "default_times": dflt_b, "reused_observable_instances_after_default_times": cfg["default_times"]}
+            if out_a.error is None and out_b.error is not None and not K.numerical_refusal(out_b):
+                V.append({"clause": "C14.run-raised", "site": f"reused-observables|{out_b.error_site}", "msg": f"second run with the same observable instances and other default times raised {out_b.error!r} :: {desc_b}"})
+            elif out_a.error is None and out_b.error is None:
+                for v in _judge(case_b, out_b.results, clock, desc_b, "C14"):
+                    v["clause"] += "-with-reused-observables"
+                    V.append(v)
         # probes / case key
         alltimes = [t for o in cfg["observables"] for t in (o["times"] if o["times"] is not None else (cfg["default_times"] or [1.0]))]
         offgrid = any(abs(t * T / dt - round(t * T / dt)) > 1e-9 and t not in (0.0, 1.0) for t in alltimes)
